@@ -34,6 +34,13 @@ package http2
 //   transport.go processData: `refund += pad` dropped                               -> "credit conserved"
 //   transport.go transportResponseBody.Close: `connAdd := cc.inflow.add(unread)`→`add(0)` -> "credit conserved"
 //   transport.go processData (unknown stream): drop the `cc.inflow.add(int(f.Length))` refund -> "credit conserved"
+//   transport.go transportResponseBody.Close: refund of the unread bytes moved behind the final select (skipped when
+//   Close leaves through ctx.Done / reqCancel)                       -> VerifC10_clientCloseTiming "credit conserved"
+//
+// VerifC10_clientCloseTiming (below) explores how the request ENDS: cancellation (context / Request.Cancel), the request
+// goroutine finishing before or after Body.Close, every arm of Close's select, DATA arriving in between, a second Close.
+//   C10-client-double-close-refunds-twice (KNOWN FINDING found by it): a second Response.Body.Close() returns the bytes
+//       the first Close discarded once more (pipe.Len() keeps reporting pipe.unread).
 
 import (
 	"context"
@@ -50,6 +57,7 @@ func init() {
 const (
 	c10cKeyRead  = "C10-client-read-past-content-length"
 	c10cKeyProto = "C10-client-data-protocol-error-no-refund"
+	c10cKeyDbl   = "C10-client-double-close-refunds-twice"
 )
 
 // c10cInflow makes an arbitrary inflow satisfying the invariant inflow.add maintains between calls:
@@ -370,9 +378,25 @@ func VerifC10_clientCloseTiming() {
 	body := transportResponseBody{cs}
 	gone, closed, endSeen := false, false, false
 
-	data := func(label string, lo int) {
-		n := vfLen(label+".len", lo, 2)
-		padded, pad := c10cPad()
+	data := func(label string, late bool) {
+		var n int
+		var padded bool
+		var pad uint8
+		switch {
+		case !late:
+			n = vfLen(label+".len", 1, 2)
+			padded, pad = c10cPad()
+		case vfTier() > 0:
+			n = vfLen(label+".len", 0, 2)
+			padded, pad = c10cPad()
+		default:
+			// frames that arrive while the stream is being torn down, quick tier: 1 byte, padding none or 2 (so that
+			// 4093 batched bytes cross the WINDOW_UPDATE threshold)
+			n = 1
+			if vfChoice(label+".padding", 2) == 1 {
+				padded, pad = true, 2
+			}
+		}
 		end := vfChoice(label+".endStream", 2) == 1
 		f := c10cData(1, vfBytes(label, n), padded, pad, end)
 		vfAssume(int64(f.Length) <= l.peer)
@@ -410,7 +434,7 @@ func VerifC10_clientCloseTiming() {
 	}
 
 	// DATA A: something to leave unread
-	data("dataA", 1)
+	data("dataA", false)
 	// the application reads part of it (never blocks: only when bytes are buffered)
 	if rl := vfLen("readLen", 0, 2); rl > 0 && c10cHeld(cs) > 0 {
 		n, _ := body.Read(make([]byte, rl))
@@ -429,7 +453,7 @@ func VerifC10_clientCloseTiming() {
 	}
 	// late DATA B (server has not seen our RST_STREAM yet)
 	if !endSeen && vfChoice("late data before Close", 2) == 1 {
-		data("dataB", 1)
+		data("dataB", true)
 	}
 	// Close, leaving through one of the arms that can be ready
 	arms := []int{0} // donec: the request goroutine was done, or gets done (woken by Close's abortStream) before the select
@@ -453,8 +477,9 @@ func VerifC10_clientCloseTiming() {
 		cs.reqCancel = ready
 		vfReach("close-via-reqCancel")
 	}
+	unreadAtClose := c10cHeld(cs) // what Close discards
 	err := body.Close()
-	cs.donec = realDonec
+	cs.donec, cs.ctx, cs.reqCancel = realDonec, context.Background(), nil
 	closed = true
 	if arm == 2 {
 		vfAssert(err == errRequestCanceled, "Close reports the cancelled request")
@@ -466,14 +491,30 @@ func VerifC10_clientCloseTiming() {
 	if !gone {
 		// late DATA C: the application closed the body, the request goroutine has not yet forgotten the stream
 		if !endSeen && vfChoice("late data after Close", 2) == 1 {
-			data("dataC", 0)
+			data("dataC", true)
 			vfReach("data-closed-not-forgotten")
 		}
 		cleanup()
 		vfReach("cleanup-after-close")
 	}
+	// the application closes the body a second time (defer res.Body.Close() after an explicit Close, or a wrapper
+	// such as gzipReader forwarding every Close): the discarded bytes were already returned
+	twice := vfChoice("second Close", 2) == 1
+	if twice {
+		if err := body.Close(); err != nil {
+			vfAssert(false, "second Close returns nil")
+		}
+		l.drain()
+		vfReach("closed-twice")
+	}
+	// KNOWN FINDING C10-client-double-close-refunds-twice: exactly the second Closes that follow a first Close which
+	// discarded unread bytes (those paths end at the KNOWN-FINDING report, hence no reach marker for them; a second Close
+	// after everything was read is harmless and reaches "closed-twice")
+	dbl := twice && unreadAtClose > 0
 	cc.mu.Lock()
-	vfAssert(l.peer+int64(cc.inflow.unsent) == l.configured, "quiescent: the peer's connection window is back to its configured size (minus the batched remainder)")
+	vfAssert(c10cInflowInv(cc.inflow), "inflow invariant")
+	vfAssert(int64(cc.inflow.avail) == l.peer, "connection window enforced == peer's view")
+	vfAssertKF(l.peer+int64(cc.inflow.unsent) == l.configured, "quiescent: the peer's connection window is back to its configured size (minus the batched remainder)", c10cKeyDbl, dbl)
 	vfAssert(cc.inflow.unsent < inflowMinRefresh, "batched remainder below inflowMinRefresh")
 	vfAssert(len(cc.streams) == 0, "stream removed")
 	cc.mu.Unlock()
